@@ -74,6 +74,16 @@ def run(tier, seed, replay=None):
     # labels with a byte the code page does not define, and labels in a code page the system does not know
     bad.append(("ok_label_with_undefined_byte", '#include "stddef.gdh"\n' + G_ + 'table(feature) f1 { id = 100; name.1033 = string("ab\x81cd efgh ijkl mnop"); '
                 'settings { on { value = 1; name.1033 = string("x\x8dy"); } off { value = 0; name.1033 = string("Off", 99999); } } default = off; } endtable;\ntable(sub) cA > cB; endtable;\n'))
+    # the header bytes that depend on several global settings together: a full bidi pass requested or not, a pass whose
+    # direction opposes the script's or not (a combination nobody wrote down leaves a byte to chance)
+    for bidi in ("false", "true", "2"):
+        for flipped in (False, True):
+            for sdir in ("HORIZONTAL_LEFT_TO_RIGHT", "HORIZONTAL_RIGHT_TO_LEFT"):
+                pdir = ("RIGHT_TO_LEFT" if sdir.endswith("LEFT_TO_RIGHT") else "LEFT_TO_RIGHT") if flipped else ("LEFT_TO_RIGHT" if sdir.endswith("LEFT_TO_RIGHT") else "RIGHT_TO_LEFT")
+                bad.append(("ok_bidi_%s_%s_%s" % (bidi, "flipped" if flipped else "same", "ltr" if sdir.endswith("LEFT_TO_RIGHT") else "rtl"),
+                            '#include "stddef.gdh"\nBidi = %s;\nScriptDirection = %s;\n' % (bidi, sdir) + G_ +
+                            'table(sub) pass(1) cA > cB; endpass; pass(2) {Direction = %s} cB > cC / cA _; endpass; endtable;\n'
+                            'table(pos) pass(1) cB {shift.x = 5m}; endpass; endtable;\n' % pdir))
     bfont = _ttf.simple_font(40, post_names=[".notdef"] + ["g%d" % i for i in range(1, 40)])[0]
     # renaming the font family (4th argument) of a font that is not "Regular" and has preferred-family / preferred-subfamily /
     # compatible-full records (ids 16-18): the name table is rebuilt with strings of other lengths
